@@ -40,7 +40,8 @@ class Armorable(metaclass=abc.ABCMeta):
     __crc24_init = 0x0B704CE
     __crc24_poly = 0x1864CFB
 
-    __cleartext_marker = '-----BEGIN PGP SIGNED MESSAGE-----'
+    # the beginning of every armor header line (RFC 4880, 6.2)
+    __armor_marker = '-----BEGIN PGP '
 
     __armor_fmt = '-----BEGIN PGP {block_type}-----\n' \
                   '{headers}\n' \
@@ -116,13 +117,14 @@ class Armorable(metaclass=abc.ABCMeta):
         """
         m = {'magic': None, 'headers': None, 'body': bytearray(), 'crc': None}
         if not Armorable.is_ascii(text):
-            # not ASCII: binary packet data, unless this is a cleartext-signed message whose text is not ASCII
+            # not ASCII: binary packet data, unless this is armored text with non-ASCII characters in its armor
+            # headers (their values are UTF-8 text, RFC 4880 6.2), in a signed cleartext or in the text around the armor
             # (binary OpenPGP data always starts with an octet that has its high bit set)
-            if isinstance(text, str) and Armorable.__cleartext_marker in text:
+            if isinstance(text, str) and Armorable.__armor_marker in text:
                 pass
 
             elif (isinstance(text, (bytes, bytearray)) and text[:1] < b'\x80'
-                    and Armorable.__cleartext_marker.encode('ascii') in text):
+                    and Armorable.__armor_marker.encode('ascii') in text):
                 try:
                     text = text.decode('utf-8')
                 except UnicodeDecodeError:
@@ -208,8 +210,8 @@ class Armorable(metaclass=abc.ABCMeta):
     @classmethod
     def from_blob(cls, blob):
         obj = cls()
-        if isinstance(blob, str) and not cls.is_ascii(blob) and Armorable.__cleartext_marker in blob:
-            # a cleartext-signed message whose text is not ASCII stays text
+        if isinstance(blob, str) and not cls.is_ascii(blob) and Armorable.__armor_marker in blob:
+            # armored text that is not pure ASCII (header values, a signed cleartext) stays text
             po = obj.parse(blob)
 
         elif (not isinstance(blob, bytes)) and (not isinstance(blob, bytearray)):
